@@ -122,6 +122,87 @@ theorem lookup_returns_after_stop (cfg : Cfg) (s : St) (rt : RType) (n : Name)
   simp only [step, hf, if_true]
   split <;> exact ⟨_, rfl⟩
 
+/-- **which nonce a request echoes**: the recorded nonce of a type changes only when a response of that type is handled
+(to that response's nonce, accepted or rejected) or when the stream is replaced (to the empty nonce) - no other operation,
+in particular no subscription change and no eviction, touches it -/
+theorem nonce_frame (cfg : Cfg) (s s' : St) (op : Op) (t : RType) (hs : step cfg s op = some s') :
+    s'.nonce t = s.nonce t ∨ (∃ r now, op = .push r now ∧ r.rt = t ∧ s'.nonce t = r.nonce) ∨
+    (op = .reconnectDrain ∧ s'.nonce t = "") := by
+  cases op with
+  | pushUnknown => simp only [step] at hs; split at hs <;> cases hs; exact Or.inl rfl
+  | push r now =>
+    simp only [step] at hs
+    split at hs; · cases hs
+    split at hs
+    · cases hs; exact Or.inl rfl
+    · split at hs; · cases hs
+      split at hs; · cases hs
+      by_cases ht : t = r.rt
+      · refine Or.inr (Or.inl ⟨r, now, rfl, ht.symm, ?_⟩)
+        split at hs
+        · cases hs; simp [ack, ht]
+        · split at hs
+          · cases hs; simp [ack, ht]
+          · cases hs; simp [applyUpdate, ack, ht]
+      · left
+        split at hs
+        · cases hs; simp [ack, ht]
+        · split at hs
+          · cases hs; simp [ack, ht]
+          · cases hs; simp [applyUpdate, ack, ht]
+  | subscribe rt n =>
+    simp only [step] at hs
+    left
+    split at hs
+    · split at hs <;> cases hs; simp [watch]
+    · cases hs; simp [watch]
+  | touch rt n now => simp only [step] at hs; cases hs; exact Or.inl rfl
+  | evict rt n now =>
+    simp only [step] at hs
+    left
+    split at hs; · cases hs
+    split at hs
+    · split at hs; · cases hs
+      split at hs <;> (cases hs; simp [watch])
+    · cases hs
+  | authFail => simp only [step] at hs; split at hs <;> cases hs; exact Or.inl rfl
+  | reconnectDrain =>
+    simp only [step] at hs
+    split at hs; · cases hs
+    cases hs; exact Or.inr (Or.inr ⟨rfl, rfl⟩)
+  | publish =>
+    simp only [step] at hs
+    left
+    split at hs <;> first | (cases hs; rfl) | cases hs
+  | senderAdopt order upto =>
+    simp only [step] at hs
+    left
+    split at hs; · cases hs
+    split at hs; · cases hs; rfl
+    split at hs; · cases hs
+    split at hs <;> (cases hs; rfl)
+  | senderSend fails =>
+    simp only [step] at hs
+    left
+    split at hs; · cases hs
+    split at hs; · cases hs; rfl
+    split at hs; · cases hs; rfl
+    split at hs <;> (cases hs; rfl)
+
+/-- a subscription change (a lookup that misses, an eviction) enqueues a request that echoes the recorded nonce: with
+`nonce_frame`, the nonce of the LATEST response of that type on the current stream - the one a control plane that follows
+the protocol expects -/
+theorem subscription_request_echoes_recorded_nonce (cfg : Cfg) (s s' : St) (rt : RType) (n : Name) (hq : s.closed = false)
+    (hs : step cfg s (.subscribe rt n) = some s') :
+    ∃ q, s'.queue = s.queue ++ [q] ∧ q.rt = rt ∧ q.nonce = s.nonce rt ∧ n ∈ q.names := by
+  simp only [step, hq, Bool.false_eq_true, false_and, if_false] at hs
+  cases hs
+  refine ⟨_, rfl, rfl, rfl, ?_⟩
+  simp only [mkReq]
+  by_cases h : n ∈ (s.watched rt).getD []
+  · simp [watch, h]
+  · simp [watch, h]
+
 /-- served values are unaffected by the stop: a cached resource keeps being served -/
 theorem cached_served_after_stop (cfg : Cfg) (s s' : St) (hs : step cfg s .authFail = some s') : s'.cache = s.cache := by
   simp only [step] at hs
